@@ -636,6 +636,18 @@ func (w *world) deliver(bz []byte, abs absTx) abci.ResponseDeliverTx {
 			dup = "indexed"
 		}
 	}
+	if abs["kind"] == "claim" {
+		// the session as the real code computes it NOW (needed by the specification only when it is a proper
+		// pseudorandom subset of the eligible nodes)
+		tx := hx.Step(abs)
+		if ai := w.keyIdx(tx.Str("app")); ai >= 0 {
+			if sn := w.sessionNodes(w.header(ai, tx.Str("chain"), int64(tx.Int("sessionH")))); sn != nil {
+				abs["sessNodes"] = sn
+			} else {
+				delete(abs, "sessNodes")
+			}
+		}
+	}
 	res := w.s.DeliverTx(bz)
 	if os.Getenv("VERIF_DEBUG") != "" {
 		fmt.Fprintf(os.Stderr, "h=%d %v id=%v dup=%s: %s/%d %.200s\n", w.s.Height, abs["kind"], abs["id"], dup, res.Codespace, res.Code, res.Log)
